@@ -317,6 +317,32 @@ class _RawConfigParser(configparser.RawConfigParser):
     super(_RawConfigParser, self).__init__(dict_type = _ConfigParserDict, default_section = "Variables", interpolation = configparser.ExtendedInterpolation())
     self._sections = collections.OrderedDict()
 
+  # [Variables] is the parser's default section so that ${NAME} placeholders resolve in every
+  # section. configparser also reports the default section's keys as options *of* every other
+  # section; the methods below restrict option lookup and iteration to a section's own keys
+  # (interpolation, which happens inside the base class get(), still sees the variables).
+  def options(self, section):
+    if section == self.default_section:
+      return super(_RawConfigParser, self).options(section)
+    try:
+      return list(self._sections[section].keys())
+    except KeyError:
+      raise configparser.NoSectionError(section)
+
+  def has_option(self, section, option):
+    if not section or section == self.default_section:
+      return super(_RawConfigParser, self).has_option(section, option)
+    if section not in self._sections:
+      return False
+    return self.optionxform(option) in self._sections[section]
+
+  def get(self, section, option, **kwargs):
+    if section != self.default_section and section in self._sections and not self.has_option(section, option):
+      if 'fallback' in kwargs:
+        return kwargs['fallback']
+      raise configparser.NoOptionError(option, section)
+    return super(_RawConfigParser, self).get(section, option, **kwargs)
+
   def optionxform(self, option):
     # Remove all whitespace here (not only in the dict used for storage) so that the parser's
     # own duplicate check, has_option() and the override/add/remove machinery all see the same
